@@ -496,7 +496,16 @@ func (pw *probeWorld) runDiffProbes(c *core.Ctx, k probeCase, probes []probe) {
 		if k.UDP {
 			op = "srv-udp"
 		}
-		mr := parseModelReply(c.Model.Ask("%s %s", op, p.Model))
+		tokReply := c.Model.Ask("%s %s", op, p.Model)
+		mr := parseModelReply(tokReply)
+		// round 4: the reaction compared with the server is the one the LEAN byte-level function computes
+		// from the raw bytes + credentials + clock (c05_bytes.go); the by-construction tokens are a cross-check
+		if br, units, ok := c05BytesModel(c, k, p); ok {
+			c05BytesCompare(c, k, p, tokReply, br, units)
+			if bm := parseModelReply(br); bm.OK {
+				mr = bm
+			}
+		}
 		var m measured
 		if k.UDP {
 			m = pw.probeUDP(p, mr)
